@@ -421,6 +421,9 @@ class ASTRewriter(ast.NodeTransformer):
             ]
             rolls.extend(flatten([self.visit(copy.deepcopy(b)) for b in new_body]))
 
+        # break is not supported, so the else clause always runs after the loop
+        rolls.extend(flatten([self.visit(b) for b in node.orelse]))
+
         return rolls
 
     def __call_range(self, node):
